@@ -29,6 +29,12 @@ CLAIMED = {
  "C15": ("Each computational opcode's real execute function (from the real Istanbul jump table) on arbitrary 256-bit operands with sentinel, shared intPool and aliasing checks; oracle = SMT-LIB 256-bit BV theory, or Yellow-Paper integer definitions (DIV/SDIV/MOD/SMOD/ADDMOD/MULMOD/EXP).",
          "Trusted: gosym incl. its big.Int model (520-bit two's complement / SMT Int), z3; EXP exponent bounded; memory/storage opcodes outside.",
          "solver-based symbolic execution of go/ssa, equivalence against bit-vector / integer specifications"),
+ "C16": ("One call frame = the inductive step over call depth: real Call/CallCode/DelegateCall/StaticCall/create against a recording fake of vm.StateDB with the callee replaced by an arbitrary outcome: snapshot before every mutation, revert-to-that-snapshot last on failure, all gas burnt unless REVERT, refusals touch nothing and return the gas; the real interpreter loop in read-only mode over all 256 opcode bytes of the real jump table.",
+         "Trusted: gosym, z3; callee summary (mutates only through vm.StateDB, leaves gas <= given). NOT covered: whole multi-contract programs, SELFDESTRUCT burn, opCall* gas forwarding; the journal itself is C09.",
+         "solver-based symbolic execution of go/ssa (bv), one inductive frame with an arbitrary callee summary"),
+ "C17": ("Signer V/network-id arithmetic, signature value ranges and hash binding on symbolic V/R/S/ids with recovery and rlpHash idealised; the real ApplyMessageEntry (preCheck, buyGas, IntrinsicGas, UseGas, refundGas, GasPool) on the real StateDB with an arbitrary gas-monotone converter step: refusals change nothing, exact charge, refund <= half.",
+         "Trusted: gosym, z3; secp256k1 and rlpHash injectivity idealised; one of r,s full length. One open known finding (pre-refund gasUsed).",
+         "solver-based symbolic execution of go/ssa (bv / SMT Int)"),
  "C20": ("Inductive step over txSortedMap and txList (real container/heap, sort) from an arbitrary invariant-satisfying list with symbolic nonces/prices/gas: representation invariant and functional specs of Put/Forward/Filter/Cap/Remove/Ready/Flatten/Add.",
          "Trusted: gosym, z3. NOT covered: pool-level pending/queued views, limits, eviction, reorg loop, and every concurrency claim.",
          "solver-based symbolic execution of go/ssa (bv / Int), inductive invariant step"),
